@@ -157,6 +157,7 @@ type side struct {
 	eofSeen            bool
 	eofErr             string
 	waiters            []*rt.Task
+	drain              bool // fault mode: after a mismatch keep emptying the transport so the sender is never blocked by us
 }
 
 func (s *side) signal() {
@@ -259,6 +260,14 @@ func (s *side) doRecv() {
 		}
 		if bad != "" {
 			s.recvErr = fmt.Sprintf("%s receive #%d (%v): %s", s.name, i, o, bad)
+			if s.drain {
+				buf := make([]byte, 65536)
+				for {
+					if _, err := s.ep.Read(buf); err != nil {
+						break
+					}
+				}
+			}
 			break
 		}
 		s.recvd++
@@ -318,7 +327,32 @@ func (w *world) Run(t *rt.Tape, trace bool) *core.Result {
 	b.sendOps = genOps(t, 1, smallBA, first != 1)
 	a.recvOps = b.sendOps
 	b.recvOps = a.sendOps
+	// Fault mode (1 case in 6): one Write of A's transport fails once without
+	// moving anything (a write timeout); the transport works again afterwards.
+	// The stream then has a hole, so the only claim left is the narrow one that
+	// the sender is told: some Send*/Flush or Close of A returns an error.
+	faultMode := t.Choose(rt.SGen, 6) == 0
+	var faultOff uint64
+	if faultMode {
+		first = 0 // the faulted sender closes first: its Close must not wait for the peer
+		total := 0
+		for _, o := range a.sendOps {
+			total += 4 + len(o.data) + 4*len(o.sizes)
+		}
+		faultOff = uint64(t.Choose(rt.SGen, total+1))
+		if t.Choose(rt.SGen, 3) == 0 {
+			faultOff = 0
+		}
+		ab.Faults = []simnet.Fault{{Kind: simnet.FaultWriteErr, Off: faultOff}}
+		b.drain = true
+	}
 	res.Sample = sample{AB: core.DescribeDir(ab), BA: core.DescribeDir(ba), OpsAB: opsString(a.sendOps), OpsBA: opsString(b.sendOps), FirstClose: []string{"A", "B"}[first]}
+	if faultMode {
+		res.Sample = struct {
+			sample
+			WriteErrorAt uint64
+		}{res.Sample.(sample), faultOff}
+	}
 	res.Class = fmt.Sprintf("capAB=%d fragAB=%d", ab.Cap, ab.Frag)
 
 	ea, eb := simnet.Pipe("A", "B", simnet.PipeConfig{AB: ab, BA: ba})
@@ -378,8 +412,37 @@ func (w *world) Run(t *rt.Tape, trace bool) *core.Result {
 		res.Fail = &core.Failure{Clause: clause, Detail: detail}
 		return res
 	}
-	if len(rr.Crashed) > 0 {
+	if faultMode && ea.Stats.FaultsFired[simnet.FaultWriteErr] > 0 {
+		// B decodes a stream with a hole: a nonsense length there is not A's concern
+		for _, c := range rr.Crashed {
+			if c.Party == "A" {
+				return fail("panic", core.CrashDetail(rr))
+			}
+		}
+	} else if len(rr.Crashed) > 0 {
 		return fail("panic", core.CrashDetail(rr))
+	}
+	if faultMode {
+		fired := ea.Stats.FaultsFired[simnet.FaultWriteErr]
+		if fired == 0 {
+			res.Reach["fault.write-error-not-reached"]++
+			return res // the run is only counted; the fault-free cases carry the full oracle
+		}
+		res.Faults = map[string]int{"transient-write-error": fired}
+		if a.sendErr != nil {
+			res.Reach["fault.write-error-reported-by-send-or-flush"]++
+			return res
+		}
+		if a.closed && a.closeErr != nil {
+			res.Reach["fault.write-error-reported-by-close"]++
+			return res
+		}
+		if !a.closed {
+			// A never got to Close (its receive side is stuck behind B): nothing was claimed
+			res.Reach["fault.write-error-session-stuck"]++
+			return res
+		}
+		return fail("write-error-swallowed", fmt.Sprintf("a Write of A's transport at stream offset %d failed (nothing written) but every Send*/Flush and Close of A returned nil: the peer has a hole in its stream and the sender was never told (B: %q)", faultOff, b.recvErr))
 	}
 	for _, s := range sides {
 		if s.sendErr != nil {
